@@ -26,12 +26,12 @@ var c05TokPool = []string{
 	"<=", "<>", "<<", ">=", ">>", "!=", "<", ">", "=", "!", "a<=b", "a<>b", "a<<b", "a>=b", "a>>b", "a!=b", "< = > <= >= <>",
 	"{{", "{{{", "}}", "}}}", "{", "}", "x{{a}}y", "{{#a}}in{{/a}}", "{{{a}}}", "{{a", "{{! c }}", "plain text", "a{{", "}}b",
 	"\r\n", "\n\r", "\r", "\n", "a\r\nb", "a,b\r\n1,2", "\"q\"\"r\",x", "\"open", ",", ",,",
-	"abc", "x_1", "AND", "not", "12", "3.5", "1e5", "2E-3", ".5", "5.", "-7", "-", ".", "/", "1e", "e",
+	"a like b", "l\u0130ke", "li\u212ae", "LIKE", "abc", "x_1", "AND", "not", "12", "3.5", "1e5", "2E-3", ".5", "5.", "-7", "-", ".", "/", "1e", "e",
 	"'a'", "\"b\"", "'it''s'", "'open", "/* c */", "/*open", "# c", "// c", "a /*c*/ b", "", " ", "  \t", "é", "ш", "😀", "￿", "a😀b", "(a + 1) * 2",
 }
 
 var c05ExprPool = []string{
-	"a + b", "'a + b'", "'a'", "a", "\"a\" + 1", "a <= b", "a <> b", "a << 2", "a >= b", "a >> 1", "a != b", "a < b", "(a", "a +", "'open", "/*c*/ 1", "Min(a,b)", "arr[1]", "a IS NULL", "a IS NOT NULL", "NOT a", "",
+	"a like b", "l\u0130ke + 1", "li\u212ae * 2", "'abc' like 'a'", "1 + '2'", "2 > 1.5", "'7' = 7", "a + b", "'a + b'", "'a'", "a", "\"a\" + 1", "a <= b", "a <> b", "a << 2", "a >= b", "a >> 1", "a != b", "a < b", "(a", "a +", "'open", "/*c*/ 1", "Min(a,b)", "arr[1]", "a IS NULL", "a IS NOT NULL", "NOT a", "",
 	"1 2", "@", "a AND", "a >= b OR c != d", "a NOT IN arr", "a IN arr", "-a", "a[", "a[1", "f(", "f()", "f(a,", "1.5e3 * 2", "'it''s' + s", "\"my var\" + 1", "a ^ 2", "x y", ")", "TRUE XOR p",
 	"a <= b AND b <> c AND c << 1 > 0", "  a  ", "a\n+\nb", "/* only */", "a /* c */ + /* d */ b", "b - a - 1", "a / 0", "s[0]", "Sum(1,2,3) = 6", "😀", "a + 😀",
 }
@@ -127,6 +127,28 @@ func (in *c05Instance) observe(input string, abort int) (out string) {
 			if err != nil {
 				out = "err=" + errCode(err) + ": " + err.Error()
 			}
+		case in.ec != nil && abort == 6:
+			// the operations manager is switched between evaluations of one compiled expression
+			err := in.ec.SetExpression(input)
+			if err != nil {
+				out = "err=" + errCode(err) + ": " + err.Error()
+				return
+			}
+			var b strings.Builder
+			for _, m := range []string{"unsafe", "safe", "unsafe", "safe"} {
+				in.ec.SetVariantOperations(manager(m))
+				r, e2 := in.ec.EvaluateUsingVariables(c05Env.collection())
+				fresh := calculator.NewExpressionCalculator()
+				fresh.SetVariantOperations(manager(m))
+				fresh.SetExpression(input)
+				fr, fe := fresh.EvaluateUsingVariables(c05Env.collection())
+				fmt.Fprintf(&b, "%s: %v %v | ", m, snap(r), errCode(e2))
+				if snap(r).String() != snap(fr).String() || errCode(e2) != errCode(fe) {
+					fmt.Fprintf(&b, "DIFFERS FROM A FRESH CALCULATOR UNDER THE SAME MANAGER (%v %v) | ", snap(fr), errCode(fe))
+				}
+			}
+			in.ec.SetVariantOperations(manager("unsafe"))
+			out = b.String()
 		case in.ec != nil && abort == 4:
 			// the token API: the same input handed over as a token list
 			tk := ctok.NewExpressionTokenizer()
@@ -186,13 +208,23 @@ func c05Exec(c *mon.Case) {
 	kind := parts[0]
 	inputs := strings.Split(parts[2], "\x01")
 	used := newC05Instance(kind)
+	var prevList []*tokenizers.Token
+	prevSnap := ""
 	for i, in := range inputs {
+		if used.tok != nil && prevList != nil && toksOf(prevList) != prevSnap {
+			c.Failf("tok instance: a token list handed out earlier was rewritten by later use of the tokenizer (tokenizer)", "component=%s history=%q\nlist as returned: %s\nlist now:         %s", kind, inputs[:i], prevSnap, toksOf(prevList))
+			return
+		}
 		abort := 0
 		if i < len(parts[1]) {
 			abort = int(parts[1][i] - '0')
 		}
 		got := used.observe(in, abort)
 		want := newC05Instance(kind).observe(in, abort)
+		if strings.Contains(want, "DIFFERS FROM A FRESH CALCULATOR") || strings.Contains(got, "DIFFERS FROM A FRESH CALCULATOR") {
+			c.Failf("expression-calculator instance: result depends on the operations manager used earlier", "input=%q\n%s", in, got)
+			return
+		}
 		if strings.HasPrefix(want, "SECOND PASS") {
 			c.Failf("tok instance: a second pass over the same reset scanner differs from the first", "component=%s input=%q\n%s", kind, in, want)
 			return
@@ -204,6 +236,16 @@ func c05Exec(c *mon.Case) {
 			}
 			c.Failf(strings.SplitN(kind, ":", 3)[0]+" instance: result depends on what the instance processed earlier"+cls,
 				"component=%s history=%q input #%d=%q\nfresh instance: %s\nused instance:  %s", kind, inputs[:i], i, in, want, got)
+			return
+		}
+	}
+	if used.tok != nil && len(inputs) > 0 {
+		// one more use through TokenizeBuffer, whose result the caller keeps across the next call
+		prevList = used.tok.TokenizeBuffer(inputs[0])
+		prevSnap = toksOf(prevList)
+		used.tok.TokenizeBuffer(inputs[len(inputs)-1] + " x")
+		if toksOf(prevList) != prevSnap {
+			c.Failf("tok instance: a token list handed out earlier was rewritten by later use of the tokenizer (tokenizer)", "component=%s inputs=%q\nlist as returned: %s\nlist now:         %s", kind, inputs, prevSnap, toksOf(prevList))
 			return
 		}
 	}
@@ -287,6 +329,9 @@ func buildC05(cfg *mon.Config) []*mon.Sub {
 							// the same pairs with one side handed over through the token API
 							emit(cp.kind + "\x0040\x00" + a + "\x01" + b)
 							emit(cp.kind + "\x0004\x00" + a + "\x01" + b)
+							if a == b {
+								emit(cp.kind + "\x006\x00" + a)
+							}
 						}
 					}
 				}
@@ -317,6 +362,8 @@ func buildC05(cfg *mon.Config) []*mon.Sub {
 						ab[k] = '5'
 					} else if cp.kind == "expression-calculator" && r.Chance(1, 3) {
 						ab[k] = '4'
+					} else if cp.kind == "expression-calculator" && r.Chance(1, 4) {
+						ab[k] = '6'
 					}
 				}
 				emit(cp.kind + "\x00" + string(ab) + "\x00" + strings.Join(in, "\x01"))
